@@ -396,13 +396,15 @@ class WalkAccount:
             for k, (sg, what) in candidates(lmap).items():
                 h = lmap[k][0]
                 d = (L(strip_cast(p.mem.get(k, h))) - L(h)).scale(sg)
+                if d.is_const() and d.c == 0 and what == '0':
+                    continue                       # a local that starts at 0 and does not move is no account
                 deltas[k] = d
             vals = list(deltas.values())
-            agree = {k: sg_w for k, sg_w in candidates(lmap).items() if vals and all((deltas[k] - v).is_const() and (deltas[k] - v).c == 0 for v in vals)}
+            agree = {k: sg_w for k, sg_w in candidates(lmap).items() if k in deltas and all((deltas[k] - v).is_const() and (deltas[k] - v).c == 0 for v in vals)}
             if vals and not agree:
                 # take the majority step (the one most candidates share)
                 best = max(vals, key=lambda v: sum(1 for w in vals if (w - v).is_const() and (w - v).c == 0))
-                agree = {k: sg_w for k, sg_w in candidates(lmap).items() if (deltas[k] - best).is_const() and (deltas[k] - best).c == 0}
+                agree = {k: sg_w for k, sg_w in candidates(lmap).items() if k in deltas and (deltas[k] - best).is_const() and (deltas[k] - best).c == 0}
             t = track.get(id(node))
             track[id(node)] = agree if t is None else {k: v for k, v in t.items() if k in agree}
 
@@ -410,9 +412,11 @@ class WalkAccount:
     def candidates(lmap):
         out = {}
         for k, (h, pre) in lmap.items():
-            if pre is None:
+            if pre is None or h[0] != 'h':         # declared in the body / shown to keep its pre-loop value
                 continue
             pr = strip_cast(pre)
+            if pr == C(0) and k[0] != 'v':
+                continue                           # an account is a scalar local, not a field that happens to start at 0
             if pr == N:
                 out[k] = (-1, 'n')
             elif pr == ADDR:
@@ -484,7 +488,7 @@ def walker(ck, R, fn, rule, cb):
         REST = L(N) - P
         # every candidate has to move with the others: a cursor that starts at addr but does not advance by the step
         for k, (sg, what) in candidates(lmap).items():
-            if k not in track[id(p.loops[-1][0])]:
+            if k not in track[id(p.loops[-1][0])] and what != '0':
                 h = lmap[k][0]
                 d = (L(strip_cast(p.mem.get(k, h))) - L(h)).scale(sg)
                 bad = bad or ('%s advances by %s while the others move by %s' % (fmt(k), d, step))
